@@ -929,6 +929,7 @@ def register_stop_and_startup(reg):
         sub = PObj("DynamicScenario", tag="sub-scenario still running at the end")
         dyn.fields.update(_setup=None)
         dyn.fields["_bindTo"] = BuiltinFn("_bindTo", lambda sc: log.append(("bind", st.get("currentSimulation") is not None)))
+        dyn.fields["_unbind"] = BuiltinFn("_unbind", lambda: None)  # undoes _bindTo (C14 contract); not part of the step order
 
         def start():
             log.append(("scenario start", len(self.fields["objects"].items), self.fields.get("agents") is not None))
